@@ -14,6 +14,47 @@ COMMON_NOTE = ('Trusted: Lean 4.33 kernel (axioms per theorem audited each run: 
                'JSON codec); Model/Value.lean as the model of Python primitives. ')
 
 CLAIMED = {
+    'C01': dict(
+        technique='Lean 4 proof (queue-with-drop-lists = documented short-circuit semantics; table adequacy on extracted tables) + differential correspondence of the Lean reference interpreter with validate(normalize=False)',
+        text=('The reference interpreter of the rules is the Lean function validate0 (every built-in validation rule, unknown-field policy, '
+              'required/require_all/update/excludes pass, child validators with the keyword overrides of each call site, path crumbs). '
+              'Proved for every handler family / environment: C01_queue (the rule queue with drop lists computes the documented '
+              'short-circuit semantics), C01_handlers (only nullable/readonly/type/empty drop selectively), C01_tables + C01_types (the '
+              'tables extracted from the live code on this run meet the semantic conditions: priority order, what None / empty values '
+              'skip, never-queued rules, type table), C01_verdict, C01_required_update. The equality "real error set = reference '
+              'interpreter" itself is decided by the validate0 port on generated schema x config x document cases (verdict, document '
+              'path, code, schema path, rule, value, constraint, *of counts, children); a difference is reported with the case as replay.'),
+        note=COMMON_NOTE + 'The model itself is the reference semantics (read from docs/validation-rules.rst and the code); float NaN/inf, sets/bytes/dates as document values and user callables outside the fixed family are outside the model.',
+        design='§6 C01'),
+    'C02': dict(
+        technique='Lean 4 proof (pass-level theorems on the normalization model) + differential correspondence with normalized() and validate(normalize=True)',
+        text=('The reference model of normalization is the Lean function normalize (rename, purge unknown, purge readonly, readonly check, '
+              'defaults and default setters, coercion, containers; child validators with their overrides; type preservation). Proved for '
+              'every environment: C02_chain_stops (a failing coercer leaves the value unchanged, files one error, no later chain member '
+              'runs), C02_leaf_fail/ok, C02_kind (list/tuple kind preserved), C02_unknown_only (rules for unknown fields never touch a '
+              'known field), C02_error_shape (code, document path, schema path of normalization errors), C02_purge_unknown. The equality '
+              'of normalized document and normalization errors with the real code is decided by the normalize / validate ports.'),
+        note=COMMON_NOTE + 'Coercers, rename handlers and default setters come from a fixed family with twin definitions (harness/families.py, Model/Env.lean).',
+        design='§6 C02'),
+    'C06': dict(
+        technique='Lean 4 proof (return conventions and decomposition on the API state machine) + correspondence of the state machine + oracle of the API relations',
+        text=('On the Lean state machine of one validator instance (Model/Api.lean): C06_verdict (validate returns True iff no error is '
+              'recorded), C06_validated, C06_normalized (None conventions), C06_normalizes_first and C06_decompose_partial (validate = '
+              'normalization errors followed by validation of the normalized document on the same instance; same processed document), '
+              'C06_errors_empty (rendering empty iff no errors, via C13_empty). The clause "validate(d) = normalized(d) errors + '
+              'validate(normalized(d), normalize=False) on a fresh instance" for readonly-free schemas is partial: its validation half is '
+              'decided by the api port and the oracle on real validators (update in {False, True}).'),
+        note=COMMON_NOTE + 'Acceptance of per-call schemas is an oracle of the api port (computed with the real code) until the C04 model is linked.',
+        design='§6 C06'),
+    'C07': dict(
+        technique='Lean 4 proof (non-interference of the API state machine, induction over histories) + correspondence over random call histories + fresh-instance oracle',
+        text=('C07_low: two instances that agree on schema and configuration give the same observation (return value or exception, recorded '
+              'errors, processed document) for every processing call, and agree on schema and configuration afterwards, whatever else they '
+              'hold from earlier calls; C07_history: after any finite history the probe call is observed as on a fresh instance. The state '
+              'machine carries every field the instance keeps between calls and takes the whole state as input; it is tied to the code by '
+              'the api port over random histories (mixed flags, invalid and non-mapping documents, accepted and rejected per-call schemas).'),
+        note=COMMON_NOTE + 'Error trees and the handler tree are functions of the error list (C11, C13) and are not stored in the state.',
+        design='§6 C07'),
     'C11': dict(
         technique='Lean 4 proof (induction over the error forest) + correspondence of the Tree model on the real recorded errors',
         text=('Theorems C11_fetch, C11_fetch_flatten, C11_nothing_else, C11_retrievable, C11_node, C11_lookup, C11_empty hold for '
